@@ -36,6 +36,7 @@ package utils
 //@   top-ensures forall(k, 0, len(b), asciiLower(b[k]) == asciiLower(old(b[k])))
 //@   loop 0:
 //@     invariant 1 <= i && n == len(b) && n >= 1
+//@     invariant forall(c, 0, 256, asciiLower(bytesconv.ToUpperTable[c]) == asciiLower(c) && asciiLower(bytesconv.ToLowerTable[c]) == asciiLower(c))
 //@     invariant changedOnly(arr(b), off(b), off(b) + len(b))
 //@     invariant forall(k, 0, len(b), asciiLower(b[k]) == asciiLower(old(b[k])))
 
